@@ -233,7 +233,7 @@ struct DaemonScenario : Scenario {
       if (!found || !isT) { w.violation("C04:retry-of-finished-recipient", who + ": its record is " + (found ? "marked done (D)" : "absent") + " in the recipient list on disk, yet a new attempt was started"); return; }
       if (r->final_report && !machine_crashed && !daemon_killed) { w.violation("C04:retry-after-final-report", who + ": this recipient was already reported " + std::string(1, r->final_report) + " and no crash happened"); return; }
     }
-    if (M("C15")) check_schedule_on_command(w, *m, d);
+    check_schedule_on_command(w, *m, d);
     r->attempts++; r->inflight = true; r->attempted_in_pass = true;
     if (d.sender != expected_sender(*m, *r) && M("C10")) w.violation("C10:sender-field:" + m->sender, who + ": sender field is [" + d.sender + "], documented [" + expected_sender(*m, *r) + "]");
   }
@@ -249,7 +249,8 @@ struct DaemonScenario : Scenario {
     int c = d.chan; long now = w.k.clock;
     if (m.pass_started[c] == 0 || now > m.pass_started[c]) {
       // a new pass for (message, channel) begins now
-      if (m.had_defer[c] && m.earliest_next[c] && now < m.earliest_next[c] && !alarm_since[c] && m.term_open_pass[c])
+      if (!M("C15")) { }
+      else if (m.had_defer[c] && m.earliest_next[c] && now < m.earliest_next[c] && !alarm_since[c] && m.term_open_pass[c])
         w.soft_violation("C15:retried-too-early:after-TERM-during-open-pass", "message " + std::to_string(m.num) + " chan " + std::to_string(c) + ": TERM arrived while its pass was still open (recipients not yet read), so the job was never closed and pqfinish did not persist the retry time; after the clean restart the deferred recipient is retried at " + std::to_string(now) + ", earlier than its back-off time " + std::to_string(m.earliest_next[c]) + "; history:" + history);
       else if (m.had_defer[c] && m.earliest_next[c] && now < m.earliest_next[c] && !alarm_since[c] && !restarted_since(m, c))
         w.violation("C15:retried-too-early", "message " + std::to_string(m.num) + " chan " + std::to_string(c) + " retried at " + std::to_string(now) + ", earlier than its back-off time " + std::to_string(m.earliest_next[c]) + " (birth " + std::to_string(m.birth) + ")");
@@ -412,6 +413,10 @@ struct DaemonScenario : Scenario {
     } else { last_was_zero_select = false; zero_selects = 0; }
   }
 
+  void on_livelock(World &w, Proc &p) override {
+    if (p.vpid == sendpid) w.violation("C16:busy-loop", "qmail-send repeats the same sequence of calls around select() without blocking and without making progress, while every other process is blocked (busy loop); history:" + history);
+    else Scenario::on_livelock(w, p);
+  }
   // ------------------------------------------------------------------ crash handling
   void alternatives(World &w, Proc &p, const Req &r, std::vector<Alt> &a) override {
     bool mut = false;
@@ -485,13 +490,14 @@ struct DaemonScenario : Scenario {
       start_daemon(w);
       return true;
     }
-    if (!tosend.empty() && injectors.empty() && !(inject_mode == "drain" && !(queue_empty(w) && inflight.empty()))) {
+    if (!tosend.empty() && injectors.empty() && !(inject_mode == "drain" && !(queue_empty(w) && inflight.empty())) && !(inject_mode == "event" && !(queue_empty(w) && inflight.empty()))) {
       if (inject_mode == "conc") { for (auto &m : tosend) start_injector(w, m); tosend.clear(); }
       else { start_injector(w, tosend.front()); tosend.erase(tosend.begin()); }
       return true;
     }
-    if (M("C16") && injectors.empty()) {
+    if (M("C16") && injectors.empty() && !term_sent) {
       // every committed message must have been noticed by now: the daemon is blocked and the clock has not moved
+      // (a daemon that was told to exit deliberately stops looking at todo/; the next incarnation scans at start-up)
       for (auto &n : w.k.listdir("/var/qmail/queue/todo")) { w.violation("C16:lost-wakeup", "all processes are blocked, the injector of message " + n + " has finished, yet todo/" + n + " has not been picked up (the daemon will only notice it at the 25-minute rescan)"); return false; }
     }
     quiescent_checks(w);
@@ -507,7 +513,10 @@ struct DaemonScenario : Scenario {
       for (auto &e : evs) { (void) e; kinds[n] = n == 0 ? 0 : BK_ENV; n++; }
       int sig_base = n;
       if (cfg.geti("signals", 1)) { kinds[n++] = BK_ENV; kinds[n++] = BK_ENV; kinds[n++] = BK_ENV; }   // TERM, ALRM, HUP
+      int inj_alt = -1;
+      if (inject_mode == "event" && !tosend.empty() && injectors.empty()) { inj_alt = n; kinds[n++] = BK_ENV; }   // a new message arrives now
       int c = w.ex->choose(kinds, n);
+      if (c == inj_alt && inj_alt >= 0) { history += " INJECT(" + tosend.front().name + ")"; start_injector(w, tosend.front()); tosend.erase(tosend.begin()); return true; }
       if (c >= sig_base) { send_signal(w, c - sig_base); return true; }
       Ev e = evs[c];
       if (e.v == 'X') { Delivery d = inflight[e.idx]; std::string g; g.push_back((char) d.delnum); g += "?garbled"; g.push_back('\0'); inflight.erase(inflight.begin() + e.idx); rep[d.chan]->buf += g; MsgState *m = find_msg(d.msg); RcptState *r = m ? find_rcpt(*m, d.recip, d.chan) : nullptr; if (r) r->inflight = false; if (m) m->had_defer[d.chan] = true; w.counters["reports_garbage"]++; history += " " + d.recip + "=garbled"; }
